@@ -117,6 +117,16 @@ func runCheck(prop, tier string) int {
 
 	cr := &checkRun{pc: pc, tier: tier, seed: seed, eng: e, notes: map[string]bool{}}
 	cr.jobs = pc.Jobs(e, tier)
+	if only := os.Getenv("GOSYM_ONLY"); only != "" {
+		var keep []*Job
+		for _, j := range cr.jobs {
+			if strings.Contains(j.Name, only) {
+				keep = append(keep, j)
+			}
+		}
+		cr.jobs = keep
+		verifDir = os.TempDir() + "/gosym-partial" // partial runs never overwrite evidence
+	}
 	// deterministic order, seed rotates the start
 	if n := len(cr.jobs); n > 0 {
 		k := int(seed % int64(n))
